@@ -342,6 +342,34 @@ def make_probe(desc, k):
                 lines += render(arglist[i])
         # fresh rest list: identity differs from any holder, equality with the surplus
         return {"stmts": stmts, "expect": lines, "tag": "arg_split", "what": what}
+    if desc[0] == "dupname":
+        _, shape, pos = desc
+        x, y = "dx%d" % k, "dy%d" % k
+        shapes_ = {
+            "flat_list": (A.lst(V(x), V(y), V(x)), A.lst(I(1), I(2), I(3))),
+            "nested_first": (A.lst(A.lst(V(x), V(y)), V(x)), A.lst(A.lst(I(1), I(2)), I(3))),
+            "nested_last": (A.lst(V(x), A.lst(V(y), V(x))), A.lst(I(1), A.lst(I(2), I(3)))),
+            "two_nested": (A.lst(A.lst(V(x)), A.lst(V(x))), A.lst(A.lst(I(1)), A.lst(I(2)))),
+            "object_values": (A.ObjectE([A.Pair(S("a"), V(x)), A.Pair(S("b"), V(x))]), A.obj(("a", I(1)), ("b", I(2)))),
+            "object_nested_list_first": (A.ObjectE([A.Pair(S("a"), A.lst(V(x), V(y))), A.Pair(S("b"), V(x))]), A.obj(("a", A.lst(I(1), I(2))), ("b", I(3)))),
+            "list_then_object": (A.lst(V(x), A.ObjectE([A.Pair(S("a"), V(x))])), A.lst(I(1), A.obj(("a", I(2))))),
+            "object_then_rest": (A.ObjectE([A.Pair(S("a"), V(x)), A.Single(V(x), False, True)]), A.obj(("a", I(1)), ("b", I(2)))),
+            "list_rest_same": (A.ListE([(A.lst(V(x)), False), (V(x), False)], True), A.lst(A.lst(I(1)), I(2), I(3))),
+            "distinct_ok": (A.lst(A.lst(V(x)), V(y)), A.lst(A.lst(I(1)), I(2))),
+        }
+        pat, src = shapes_[shape]
+        if pos == "decl":
+            stmts = [A.Declare(pat, src)]
+        elif pos == "assign":
+            stmts = [A.Declare(V(x), A.Null()), A.Declare(V(y), A.Null()), A.Assign(pat, src)]
+        elif pos == "for":
+            stmts = [A.For(A.lst(V("_"), pat), A.lst(src), [A.pr(S("body"))])]
+        else:
+            stmts = [A.FuncStmt("df%d" % k, [pat], False, [A.pr(S("body"))]), A.ExprStmt(A.call("df%d" % k, src))]
+        if shape == "distinct_ok":
+            exp = [] if pos in ("decl", "assign") else ["body"]
+            return {"stmts": stmts + [A.pr(S("ok"))], "expect": exp + ["ok"], "tag": "dup_name_control", "what": "distinct names in %s" % pos}
+        return {"stmts": stmts, "expect": None, "tag": "dup_name", "what": "name bound twice (%s) in %s position" % (shape, pos)}
     if desc[0] == "misuse":
         name = desc[1]
         o = "mo%d" % k
@@ -412,6 +440,10 @@ def run(rep, tier):
                     descs.append(("argsplit", nparams, collect, args, m))
     for m in MISUSE:
         descs.append(("misuse", m))
+    for shape in ["flat_list", "nested_first", "nested_last", "two_nested", "object_values", "object_nested_list_first", "list_then_object",
+                  "object_then_rest", "list_rest_same", "distinct_ok"]:
+        for pos in ("decl", "assign", "for", "fn"):
+            descs.append(("dupname", shape, pos))
     rng.shuffle(descs)
     batch.run(rep, "seedverif.checks.c13", descs, "C13", oracle="abstract pattern matcher + round-trip laws")
     rep.exhaustive = True
